@@ -17,6 +17,7 @@ import bisect
 import json
 import math
 import sys
+import zlib
 from fractions import Fraction
 
 import numpy as np
@@ -145,7 +146,8 @@ def build_instructions(ispec):
     from atomica.programs import ProgramInstructions
 
     def conv(d):
-        return {k: to_ts(s) for k, s in d.items()} if d else None
+        # an overwrite may be given as a plain number ("a scalar spend / capacity / coverage"): it stands for that value at every time
+        return {k: (float(s["a"]) if s.get("scalar") else to_ts(s)) for k, s in d.items()} if d else None
 
     return ProgramInstructions(start_year=ispec.get("start", 2000.0), alloc=conv(ispec.get("alloc")), capacity=conv(ispec.get("capacity")), coverage=conv(ispec.get("coverage")))
 
@@ -581,6 +583,9 @@ def g_instr(r, specs, force=None):
                 ispec["capacity"][s["name"]] = g_series(r, lambda rr, lvl=lvl: float(rr.choice([0.0, lvl, lvl * 10 ** rr.uniform(-2, 2)])))
             else:
                 ispec["coverage"][s["name"]] = g_series(r, lambda rr: float(rr.choice([0.0, 1.0, 0.5, rr.random(), rr.uniform(0, 3), 12.0])))
+            sr = ispec[kind][s["name"]]
+            if sr["a"] is not None and not sr["t"] and (zlib.crc32(repr((s["name"], kind, sr["a"])).encode()) % 3 == 0 or sr["a"] == 0.0):
+                sr["scalar"] = True   # passed to ProgramInstructions as a number, not as a TimeSeries (decided from the values, so the random stream is unchanged)
     return ispec
 
 
